@@ -74,6 +74,7 @@ type Config struct {
 	Seed          int64
 	Deadline      time.Time
 	Trace         bool
+	Preemptions   int // 0: Options.Preemptions
 	ReplayInputs  []ReplayVal // non-nil: concrete re-execution of one input vector (no symbolic inputs)
 }
 
@@ -471,6 +472,9 @@ func (e *Engine) runPath(fn *ssa.Function, it workItem, solver *Solver) {
 	switch outcome {
 	case "target-panic", "target-runtime-panic":
 		e.recordFinding(r, "uncaught-panic", "", r.model, detail)
+	case "deadlock":
+		// every goroutine blocked and the harness not finished: a lost wake-up
+		e.recordFinding(r, "deadlock", "", r.model, detail)
 	}
 	e.mu.Lock()
 	defer e.mu.Unlock()
